@@ -272,6 +272,24 @@ def run(ctx):
                         new_names[k_] = v_
                 if new_names != dn and "".join(new_names) not in requests:
                     requests.append("".join(new_names))
+            # target names equal to the generic contracted names the
+            # default expansion just used (a later call must not reuse them)
+            gen_ = {"occ": [], "virt": []}
+            for t_ in ref.terms:
+                for s_ in t_.contracted:
+                    if s_.space in gen_ and not s_.spin and \
+                            s_.name not in gen_[s_.space]:
+                        gen_[s_.space].append(s_.name)
+            cnt_ = {"occ": 0, "virt": 0}
+            gnames, okg = [], True
+            for s_ in default:
+                if cnt_[s_.space] >= len(gen_[s_.space]):
+                    okg = False
+                    break
+                gnames.append(gen_[s_.space][cnt_[s_.space]])
+                cnt_[s_.space] += 1
+            if okg and gnames:
+                requests.append("".join(gnames))
             for names in requests:
                 try:
                     got = real(cls.expand_itmd(indices=names,
